@@ -181,7 +181,14 @@ static void le_op(std::vector<std::string>& tk) {
       Congruence_System cgs(*cgsys[w]);
       dim cd = cs.space_dimension(), gd = gs.space_dimension(), qd = cgs.space_dimension();
       if (k == 0) { cs.strong_normalize(); cs.sort_rows(); gs.strong_normalize(); gs.sort_rows(); }
-      else if (k == 1) { cs.simplify(); gs.simplify(); }
+      else if (k == 1) {
+        // Linear_System::back_substitute takes Variable(last_nonzero() - 1): an equality whose homogeneous
+        // part is (or becomes, after Gaussian elimination) zero makes it throw std::length_error, in both
+        // representations alike; not this property's business, the throw itself is printed and compared
+        try { cs.simplify(); }
+        catch (const std::length_error&) { std::cout << "C" << w << " sysop1 cs.simplify-threw-length_error\n"; continue; }
+        gs.simplify();
+      }
       else if (k == 2) {
         if (cd >= 2) { std::vector<Variable> c; for (dim i = 0; i < cd; ++i) c.push_back(Variable(i)); cs.permute_space_dimensions(c); }
         if (gd >= 2) { std::vector<Variable> c; for (dim i = 0; i < gd; ++i) c.push_back(Variable(i)); gs.permute_space_dimensions(c); }
